@@ -17,14 +17,6 @@ VARIABLES l, nfail
 
 Has(e, k) == k \in DOMAIN e
 
-\* ---- DeviceTimeAns: the Go value is a duration {neg, secs (8 bytes LE), ns}; the wire has
-\*      Seconds (u32) and Frac (1/256 s, rounded down) - LoRaWAN 1.1 sec. 5.9 ----------------------
-IsDTA(e) == e.dir = "down" /\ e.cid = 13
-DurRepresentable(t) == ~t.neg /\ SubSeq(t.secs, 5, 8) = <<0, 0, 0, 0>>
-DurToFields(t) == [Seconds |-> SubSeq(t.secs, 1, 4), Frac |-> t.ns \div 3906250]
-FieldsToDur(v) == [neg |-> FALSE, secs |-> v.Seconds \o <<0, 0, 0, 0>>, ns |-> v.Frac * 3906250]
-QuantDur(t) == [neg |-> FALSE, secs |-> t.secs, ns |-> (t.ns \div 3906250) * 3906250]
-
 \* ---- enc ----------------------------------------------------------------------------------------
 EncFails(e) ==
   LET lay == Layout(e.dir, e.cid)
